@@ -455,6 +455,10 @@ func (env *Env) call(n *ECall) Val {
 		v := arg(0)
 		t := env.pkg.resolveType(n.TypeArg)
 		return boolVal(And(Neq(v.T(), TZero), Eq(app(SInt, x.typeofFn(), v.T()), x.typeTag(t))))
+	case "chancap":
+		// chancap(c): the capacity channel c was made with
+		a := env.st.heapGet("chan.cap", ArrSort(SInt))
+		return intVal(Select(a, arg(0).T()))
 	case "flag":
 		// flag(F, name): name is set in feature-flag map F
 		f := arg(0)
